@@ -74,7 +74,9 @@ class ExprMixin:
         if sym.kind == "set":
             return self.fresh_sym(st, prefix, sym.spec or Spec("set", VAL))
         if sym.kind == "dict":
-            return self.fresh_sym(st, prefix, sym.spec or Spec("dict", (sym.py.kspec, sym.py.vspec)))
+            d = self.fresh_sym(st, prefix, sym.spec or Spec("dict", (sym.py.kspec, sym.py.vspec)))
+            d.py.mode = sym.py.mode
+            return d
         sp = sym.spec
         t = self.fresh_term(st, prefix, V)
         if sp is not None and sp.kind in ("str", "prim"):
@@ -320,7 +322,7 @@ class ExprMixin:
         if a.kind == b.kind and a.kind in ("int", "bool", "seq", "set"):
             return Sym(a.kind, z3.If(c, a.t, b.t), a.spec or b.spec)
         if a.kind == b.kind == "dict":
-            return Sym("dict", None, a.spec, DictPayload(z3.If(c, a.py.keys, b.py.keys), z3.If(c, a.py.vals, b.py.vals), a.py.kspec, a.py.vspec))
+            return Sym("dict", None, a.spec, DictPayload(z3.If(c, a.py.keys, b.py.keys), z3.If(c, a.py.vals, b.py.vals), a.py.kspec, a.py.vspec, a.py.mode))
         sp = a.spec if (a.spec == b.spec) else None
         return S_val(z3.If(c, box(a, st), box(b, st)), sp)
 
@@ -425,6 +427,8 @@ class ExprMixin:
             xb = box(x, st)
             return z3.Exists([i], z3.And(0 <= i, i < Q.Length(container.t), veq(Q.At(container.t, i), xb)))
         if container.kind == "dict":
+            if container.py.mode == "pyeq":
+                return self.dict_has_pyeq(container, box(x, st), st)
             return seq_contains(container.py.keys, box(x, st), st)
         if container.kind == "val":
             sp = container.spec
@@ -509,18 +513,30 @@ class ExprMixin:
         return Sym("set", r, a.spec)
 
     def e_Dict(self, node, st):
-        d = Sym("dict", None, Spec("dict", (VAL, VAL)), DictPayload(Q.Empty(), z3.K(V, NONE)))
+        d = Sym("dict", None, Spec("dict", (VAL, VAL)), DictPayload(Q.Empty(), z3.K(V, NONE), mode=getattr(self.contract, "dict_keys", "identity")))
         for k, v in zip(node.keys, node.values):
             if k is None:
                 raise Unsupported("dict unpacking display")
             d = self.dict_set(d, self.eval(k, st), self.eval(v, st), st)
         return d
 
+    def dict_has_pyeq(self, d: Sym, kb, st):
+        """`k in d` for a dict keyed by objects with user-level __eq__/__hash__: some stored key is the same
+        object, or has the same hash and compares equal; unhashable keys raise TypeError"""
+        hashable = uf("py_hashable", V, BoolS)
+        pyhash = uf("py_hash", V, IntS)
+        self.may_raise(st, z3.Not(hashable(kb)), "TypeError", "unhashable dict key")
+        i = fresh("ki", IntS)
+        keys = d.py.keys
+        return z3.Exists([i], z3.And(0 <= i, i < Q.Length(keys),
+                                     z3.Or(Q.At(keys, i) == kb, z3.And(pyhash(Q.At(keys, i)) == pyhash(kb), veq(Q.At(keys, i), kb)))))
+
     def dict_set(self, d: Sym, k: Sym, v: Sym, st) -> Sym:
         kb, vb = box(k, st), box(v, st)
         p = d.py
-        keys = z3.If(seq_contains(p.keys, kb, st), p.keys, Q.Concat(st, p.keys, Q.Unit(st, kb)))
-        return Sym("dict", None, d.spec, DictPayload(keys, z3.Store(p.vals, kb, vb), p.kspec, p.vspec))
+        present = self.dict_has_pyeq(d, kb, st) if p.mode == "pyeq" else seq_contains(p.keys, kb, st)
+        keys = z3.If(present, p.keys, Q.Concat(st, p.keys, Q.Unit(st, kb)))
+        return Sym("dict", None, d.spec, DictPayload(keys, z3.Store(p.vals, kb, vb), p.kspec, p.vspec, p.mode))
 
     def e_JoinedStr(self, node, st):
         # f-string: an uninterpreted function of the template and of the interpolated values
